@@ -214,9 +214,26 @@ class Gen:
         self.nwh += 1
         self.emit('wh_new')
         self.wh_live.append(w)
+        members = []
         for _ in range(self.rng.randint(0, 4) if size is None else size):
-            self.emit('wh_push W%d r%d' % (w, self.pick('Type')))
-        return self.emit('mk %s W%d' % (fac, w), 'Product' if fac == 'get_product' else 'Sum')
+            # a member may well repeat an earlier one: (int, char*, int)
+            t = self.rng.choice(members) if members and self.rng.random() < 0.3 else self.pick('Type')
+            members.append(t)
+            self.emit('wh_push W%d r%d' % (w, t))
+        r = self.emit('mk %s W%d' % (fac, w), 'Product' if fac == 'get_product' else 'Sum')
+        # the OTHER constructor asked for the same members through a Warehouse of its own (the two share nothing a client can see: a
+        # product stays what it was whatever sums are requested, and conversely), one time in three
+        if members and self.rng.random() < 0.34:
+            other = 'get_sum' if fac == 'get_product' else 'get_product'
+            w2 = self.nwh
+            self.nwh += 1
+            self.emit('wh_new')
+            self.wh_live.append(w2)
+            for t in members:
+                self.emit('wh_push W%d r%d' % (w2, t))
+            self.emit('mk %s W%d' % (other, w2), 'Product' if other == 'get_product' else 'Sum')
+            self.emit('obs')
+        return r
 
     # -- one random op
     def operand(self, letter):
